@@ -528,6 +528,129 @@ pub fn run_backpressure_keepalive(compressed: bool, cancel_after_ms: u64, p: &mu
     Ok(())
 }
 
+/// Writes that are cancelled (select!/timeout) while the peer is not reading, then writes that complete once it reads
+/// again: whatever reaches the peer must be one whole frame per binary message, in call order, without duplicates, and
+/// every write that returned Ok must be among them.
+pub fn run_backpressure_cancelled_writes(compressed: bool, extra_cancelled: usize, p: &mut Part) -> Result<(), String> {
+    use insim::{identifiers::RequestId, insim::Msl, Packet};
+    use tokio::net::TcpSocket;
+    let rt = tokio::runtime::Builder::new_current_thread().enable_all().build().map_err(|e| e.to_string())?;
+    let label = format!("backpressure-cancelled-writes-{}-{extra_cancelled}", mode_name(compressed));
+    let packet = |i: usize| -> Packet { Packet::Msl(Msl { reqi: RequestId(1 + (i % 250) as u8), msg: format!("{i:07} {}", "x".repeat(40 + (i * 7) % 80)), ..Default::default() }) };
+    struct Out {
+        frames: Vec<Vec<u8>>,
+        completed: Vec<bool>,
+        cancelled: usize,
+        server_got: Vec<Vec<u8>>,
+    }
+    let out: Result<Out, String> = rt.block_on(async {
+        let lsock = TcpSocket::new_v4().map_err(|e| e.to_string())?;
+        let _ = lsock.set_recv_buffer_size(4096);
+        lsock.bind("127.0.0.1:0".parse().unwrap()).map_err(|e| e.to_string())?;
+        let listener = lsock.listen(8).map_err(|e| e.to_string())?;
+        let addr = listener.local_addr().map_err(|e| e.to_string())?;
+        let (drain_tx, drain_rx) = tokio::sync::oneshot::channel::<()>();
+        let server = tokio::spawn(async move {
+            let Ok((tcp, _)) = listener.accept().await else { return vec![] };
+            let Ok(mut ws) = tokio_tungstenite::accept_async(tcp).await else { return vec![] };
+            if drain_rx.await.is_err() {
+                return vec![];
+            }
+            let mut got: Vec<Vec<u8>> = vec![];
+            while let Ok(Some(Ok(m))) = tokio::time::timeout(Duration::from_millis(1500), ws.next()).await {
+                if let Message::Binary(b) = m {
+                    got.push(b);
+                }
+            }
+            got
+        });
+        let csock = TcpSocket::new_v4().map_err(|e| e.to_string())?;
+        let _ = csock.set_send_buffer_size(4096);
+        let tcp = tokio::time::timeout(WATCHDOG, csock.connect(addr)).await.map_err(|_| "connect watchdog".to_string())?.map_err(|e| e.to_string())?;
+        let (ws, _) = tokio::time::timeout(WATCHDOG, tokio_tungstenite::client_async(format!("ws://{addr}/connect"), tokio_tungstenite::MaybeTlsStream::Plain(tcp)))
+            .await
+            .map_err(|_| "ws handshake watchdog".to_string())?
+            .map_err(|e| e.to_string())?;
+        let mut framed = tokio_impl::Framed::new(Box::new(tokio_impl::WebsocketStream::from(ws)), Codec::new(mode_of(compressed)));
+        let mut frames = vec![];
+        let mut completed = vec![];
+        let mut cancelled = 0usize;
+        let mut after_stall = 0usize;
+        let mut i = 0usize;
+        // phase 1: write until the first stall, then keep issuing (mostly cancelled) writes
+        while i < 400_000 && after_stall < extra_cancelled {
+            let pk = packet(i);
+            let Enc::Ok(e) = real_encode(&pk, compressed) else { return Err("generated packet not encodable".to_string()) };
+            frames.push(e);
+            let budget = if cancelled == 0 { 150 } else { 3 };
+            match tokio::time::timeout(Duration::from_millis(budget), framed.write(pk)).await {
+                Ok(Ok(())) => completed.push(true),
+                Ok(Err(e)) => return Err(format!("write failed: {e}")),
+                Err(_) => {
+                    completed.push(false);
+                    cancelled += 1;
+                },
+            }
+            if cancelled > 0 {
+                after_stall += 1;
+            }
+            i += 1;
+        }
+        if cancelled == 0 {
+            return Err("the send path never filled up (no back-pressure reached)".to_string());
+        }
+        // phase 2: the peer reads again; a few more writes, all awaited
+        let _ = drain_tx.send(());
+        for _ in 0..5 {
+            let pk = packet(i);
+            let Enc::Ok(e) = real_encode(&pk, compressed) else { return Err("generated packet not encodable".to_string()) };
+            frames.push(e);
+            match tokio::time::timeout(WATCHDOG, framed.write(pk)).await {
+                Ok(Ok(())) => completed.push(true),
+                Ok(Err(e)) => return Err(format!("write failed after the peer resumed: {e}")),
+                Err(_) => return Err("write watchdog after the peer resumed".to_string()),
+            }
+            i += 1;
+        }
+        let server_got = tokio::time::timeout(WATCHDOG, server).await.map_err(|_| "server watchdog".to_string())?.map_err(|e| e.to_string())?;
+        Ok(Out { frames, completed, cancelled, server_got })
+    });
+    let o = out.map_err(|e| format!("{label}: {e}"))?;
+    p.evaluations += 1;
+    p.distinct(&label);
+    p.count("bp_cancelled_writes", o.cancelled as u64);
+    p.count("bp_messages_received", o.server_got.len() as u64);
+    let replay = json!({"label": label, "writes_attempted": o.frames.len(), "writes_cancelled": o.cancelled, "messages_received": o.server_got.len()});
+    // every message is exactly one attempted frame, in call order, no duplicates
+    let mut next = 0usize;
+    let mut seen = vec![false; o.frames.len()];
+    for (mi, m) in o.server_got.iter().enumerate() {
+        let (fr, rest) = crate::transport::ref_frames(m, compressed);
+        if fr.len() != 1 || !rest.is_empty() {
+            p.violation(
+                "C20/websocket-backpressure/message-is-not-one-frame",
+                format!("{label}: binary message #{mi} of {} bytes holds {} frame(s) and {} stray byte(s) ({} writes had been cancelled)", m.len(), fr.len(), rest.len(), o.cancelled),
+                replay,
+            );
+            return Ok(());
+        }
+        match (next..o.frames.len()).find(|k| o.frames[*k] == *m) {
+            Some(k) => {
+                seen[k] = true;
+                next = k + 1;
+            },
+            None => {
+                p.violation("C20/websocket-backpressure/message-out-of-order-or-duplicated", format!("{label}: binary message #{mi} is not a later write's frame (duplicate, reordered or altered)"), replay);
+                return Ok(());
+            },
+        }
+    }
+    if let Some(k) = (0..o.frames.len()).find(|k| o.completed[*k] && !seen[*k]) {
+        p.violation("C20/websocket-backpressure/frames-missing", format!("{label}: write #{k} returned Ok but its frame never reached the peer"), replay);
+    }
+    Ok(())
+}
+
 /// WebsocketStream driven directly through AsyncRead with caller buffers of chosen sizes.
 fn run_direct(r: &mut Rng, bufsize: usize, p: &mut Part) -> Result<(), String> {
     let rt = tokio::runtime::Builder::new_current_thread().enable_all().build().map_err(|e| e.to_string())?;
@@ -637,6 +760,9 @@ pub fn run(ctx: &mut Ctx) -> (&'static str, String, bool) {
                 }
             }
             if rep == 0 {
+                if let Err(e) = run_backpressure_cancelled_writes(compressed, if asan { 200 } else { ctx.tier.pick(700usize, 3000usize) }, &mut p) {
+                    ctx.inconclusive(e);
+                }
                 for cancel_ms in [60u64, 400] {
                     if let Err(e) = run_backpressure_keepalive(compressed, cancel_ms, &mut p) {
                         ctx.inconclusive(e);
@@ -663,7 +789,7 @@ pub fn run(ctx: &mut Ctx) -> (&'static str, String, bool) {
     ctx.assume("every session is ended by the server, so swallowed bytes show up as a short/different result sequence, never as a verdict by timeout (watchdog expiry = inconclusive)");
     (
         "exploration",
-        "frame streams (all kinds, unknown types, undecodable bodies, up to 3x the 6120-byte buffer) delivered as binary messages in six partition styles (one frame per message, several per message, split anywhere, > 1020-byte messages up to 64 KiB, 1-3 byte messages, boundary +-1) with text/ping/pong/empty messages interleaved x both size modes x {close frame, abrupt TCP close} x stream cut mid-frame; then 6 writes observed by the server; closure racing the last packets; 4000-12000 writes and a keep-alive answered under back-pressure (peer not reading, 4 KiB socket buffers) with the answering read cancelled in the flush; plus direct AsyncRead with caller buffers 1..2048; distinct = distinct (session, stream)".into(),
+        "frame streams (all kinds, unknown types, undecodable bodies, up to 3x the 6120-byte buffer) delivered as binary messages in six partition styles (one frame per message, several per message, split anywhere, > 1020-byte messages up to 64 KiB, 1-3 byte messages, boundary +-1) with text/ping/pong/empty messages interleaved x both size modes x {close frame, abrupt TCP close} x stream cut mid-frame; then 6 writes observed by the server; closure racing the last packets; 4000-12000 writes and a keep-alive answered under back-pressure (peer not reading, 4 KiB socket buffers) with the answering read cancelled in the flush; hundreds of writes cancelled under back-pressure followed by completed ones (one frame per message, in order, none lost); plus direct AsyncRead with caller buffers 1..2048; distinct = distinct (session, stream)".into(),
         false,
     )
 }
